@@ -152,5 +152,231 @@ theorem value_complete' (fx : Fixes) (hne : HNonEmpty H) (t : Tree) (hw : WF t) 
   rw [this]
   simp [pleafOf] at hroot
   simp [hroot]
+
+/-- leftmost / rightmost leaf -/
+def Tree.first : Tree → Bytes × Bytes × Int
+  | .leaf k v ver => (k, v, ver)
+  | .inner _ _ _ _ l _ => Tree.first l
+def Tree.last : Tree → Bytes × Bytes × Int
+  | .leaf k v ver => (k, v, ver)
+  | .inner _ _ _ _ _ r => Tree.last r
+
+theorem first_mem (t : Tree) : t.first ∈ t.leaves := by
+  induction t with
+  | leaf => simp [Tree.first, Tree.leaves]
+  | inner _ _ _ _ l r ihl _ => simp [Tree.first, Tree.leaves, ihl]
+theorem last_mem (t : Tree) : t.last ∈ t.leaves := by
+  induction t with
+  | leaf => simp [Tree.last, Tree.leaves]
+  | inner _ _ _ _ l r _ ihr => simp [Tree.last, Tree.leaves, ihr]
+
+/-- descent for a key below every stored key: all left turns, ends at the first leaf -/
+theorem pathToLeaf_below (t : Tree) (hw : WF t) (key : Bytes) (hb : ∀ e ∈ t.leaves, key < e.1) :
+    isLeftmost (pathToLeaf H enc t key).1 = true ∧ (pathToLeaf H enc t key).2 = t.first := by
+  induction hw with
+  | leaf k v ver => simp [pathToLeaf, isLeftmost, Tree.first]
+  | inner h s ver nk l r _ _ _ hl _ ihl _ =>
+    have hlt : key < nk := Bytes.lt_trans (hb _ (by simp [Tree.leaves, first_mem l])) (hl _ (first_mem l))
+    simp only [pathToLeaf, if_pos hlt, Tree.first]
+    have := ihl (fun e he => hb e (by simp [Tree.leaves, he]))
+    simp only [isLeftmost, List.all_cons] at this ⊢
+    simp [this.1, this.2]
+
+/-- descent for a key above every stored key: all right turns, ends at the last leaf -/
+theorem pathToLeaf_above (t : Tree) (hw : WF t) (key : Bytes) (ha : ∀ e ∈ t.leaves, e.1 < key) :
+    isRightmost (pathToLeaf H enc t key).1 = true ∧ (pathToLeaf H enc t key).2 = t.last := by
+  induction hw with
+  | leaf k v ver => simp [pathToLeaf, isRightmost, Tree.last]
+  | inner h s ver nk l r _ _ _ _ hr _ ihr =>
+    have hlt : ¬ key < nk :=
+      Bytes.not_lt.mpr (Bytes.le_of_lt (Bytes.lt_of_le_of_lt (hr _ (last_mem r)) (ha _ (by simp [Tree.leaves, last_mem r]))))
+    simp only [pathToLeaf, if_neg hlt, Tree.last]
+    have := ihr (fun e he => ha e (by simp [Tree.leaves, he]))
+    simp only [isRightmost, List.all_cons] at this ⊢
+    simp [this.1, this.2]
+
+theorem trackPath_fields (path : Path) (st : Trav) (h : Int) (lh rh : Bytes) :
+    (trackPath path st h lh rh).allPaths = st.allPaths ∧ (trackPath path st h lh rh).leaves = st.leaves ∧
+    (trackPath path st h lh rh).values = st.values ∧ (trackPath path st h lh rh).current = st.current := by
+  unfold trackPath
+  split
+  · exact ⟨rfl, rfl, rfl, rfl⟩
+  · split
+    · exact ⟨rfl, rfl, rfl, rfl⟩
+    · split <;> exact ⟨rfl, rfl, rfl, rfl⟩
+
+/-- a traversal that starts above every stored key visits no leaf -/
+theorem traverse_none (fx : Fixes) (path : Path) (start keyEnd : Bytes) (limit : Nat) (t : Tree)
+    (ha : ∀ e ∈ t.leaves, e.1 < start) : ∀ st : Trav,
+    (traverse H enc fx path start keyEnd limit t st).2 = false ∧
+    (traverse H enc fx path start keyEnd limit t st).1.allPaths = st.allPaths ∧
+    (traverse H enc fx path start keyEnd limit t st).1.leaves = st.leaves ∧
+    (traverse H enc fx path start keyEnd limit t st).1.values = st.values := by
+  induction t with
+  | leaf k v ver =>
+    intro st
+    have : ¬ start ≤ k := Bytes.not_le.mpr (ha (k, v, ver) (by simp [Tree.leaves]))
+    simp [traverse, this]
+  | inner h s ver nk l r ihl ihr =>
+    intro st
+    have hl := ihl (fun e he => ha e (by simp [Tree.leaves, he]))
+    have hr := ihr (fun e he => ha e (by simp [Tree.leaves, he]))
+    simp only [traverse]
+    obtain ⟨t1, t2, t3, _⟩ := trackPath_fields path st h (Tree.hash H enc l) (Tree.hash H enc r)
+    generalize hst1 : trackPath path st h (Tree.hash H enc l) (Tree.hash H enc r) = st1 at *
+    generalize hst2 : (if st1.pathCount.isNone = true then { st1 with current := st1.current ++ [⟨h, s, ver, [], Tree.hash H enc r⟩] } else st1) = st2
+    have e2 : st2.allPaths = st.allPaths ∧ st2.leaves = st.leaves ∧ st2.values = st.values := by
+      rw [← hst2]; split <;> simp [t1, t2, t3]
+    by_cases hs : start < nk
+    · simp only [if_pos hs]
+      have h1 := hl st2
+      generalize hres : traverse H enc fx path start keyEnd limit l st2 = res at h1
+      obtain ⟨st3, stop⟩ := res
+      simp only at h1
+      obtain ⟨hstop, a1, a2, a3⟩ := h1
+      subst hstop
+      simp only [Bool.false_eq_true, if_false]
+      have h2 := hr st3
+      exact ⟨h2.1, by rw [h2.2.1, a1, e2.1], by rw [h2.2.2.1, a2, e2.2.1], by rw [h2.2.2.2, a3, e2.2.2]⟩
+    · simp only [if_neg hs, Bool.false_eq_true, if_false]
+      have h2 := hr st2
+      exact ⟨h2.1, by rw [h2.2.1, e2.1], by rw [h2.2.2.1, e2.2.1], by rw [h2.2.2.2, e2.2.2]⟩
+
+theorem le_last (t : Tree) (hw : WF t) : ∀ e ∈ t.leaves, e.1 ≤ t.last.1 := by
+  induction hw with
+  | leaf k v ver => intro e he; simp [Tree.leaves] at he; subst he; exact Bytes.le_refl _
+  | inner h s ver nk l r _ _ _ hl hr _ ihr =>
+    intro e he
+    simp only [Tree.leaves, List.mem_append] at he
+    simp only [Tree.last]
+    rcases he with he | he
+    · exact Bytes.le_of_lt (Bytes.lt_of_lt_of_le (hl e he) (hr _ (last_mem r)))
+    · exact ihr e he
+
+/-- `getRangeProof` with the destructuring `let` written as projections -/
+theorem getRangeProof_eq (fx : Fixes) (t : Tree) (ks ke : Bytes) (limit : Nat) :
+    getRangeProof H enc fx t ks ke limit =
+      if ke ≤ ks then none else
+      if limit = 1 ∨ ke ≤ nextKey fx (pathToLeaf H enc t ks).2.1 then
+        some (⟨(pathToLeaf H enc t ks).1, [], [pleafOf H (pathToLeaf H enc t ks).2]⟩,
+              if ks ≤ (pathToLeaf H enc t ks).2.1 ∧ (pathToLeaf H enc t ks).2.1 < ke then [(pathToLeaf H enc t ks).2.2.1] else [])
+      else
+        some (⟨(pathToLeaf H enc t ks).1,
+               (traverse H enc fx (pathToLeaf H enc t ks).1 (nextKey fx (pathToLeaf H enc t ks).2.1) ke limit t
+                 ⟨some 0, [], [], [pleafOf H (pathToLeaf H enc t ks).2], 1,
+                  if ks ≤ (pathToLeaf H enc t ks).2.1 ∧ (pathToLeaf H enc t ks).2.1 < ke then [(pathToLeaf H enc t ks).2.2.1] else []⟩).1.allPaths,
+               (traverse H enc fx (pathToLeaf H enc t ks).1 (nextKey fx (pathToLeaf H enc t ks).2.1) ke limit t
+                 ⟨some 0, [], [], [pleafOf H (pathToLeaf H enc t ks).2], 1,
+                  if ks ≤ (pathToLeaf H enc t ks).2.1 ∧ (pathToLeaf H enc t ks).2.1 < ke then [(pathToLeaf H enc t ks).2.2.1] else []⟩).1.leaves⟩,
+              (traverse H enc fx (pathToLeaf H enc t ks).1 (nextKey fx (pathToLeaf H enc t ks).2.1) ke limit t
+                 ⟨some 0, [], [], [pleafOf H (pathToLeaf H enc t ks).2], 1,
+                  if ks ≤ (pathToLeaf H enc t ks).2.1 ∧ (pathToLeaf H enc t ks).2.1 < ke then [(pathToLeaf H enc t ks).2.2.1] else []⟩).1.values) := by
+  unfold getRangeProof
+  rcases hp : pathToLeaf H enc t ks with ⟨path, lk, lv, lver⟩
+  rfl
+
+/-- `GetWithProof` answers "absent" with the proof whenever the first proof leaf is not the key -/
+theorem getWithProof_absent (fx : Fixes) (t : Tree) (key : Bytes) (p : RangeProof) (vals : List Bytes)
+    (hg : getRangeProof H enc fx t key (nextKey fx key) 2 = some (p, vals))
+    (hne : ∀ l ∈ p.leaves.head?, l.key ≠ key) :
+    queryProof H enc fx (some t) key = some (none, some p) := by
+  simp only [queryProof, getWithProof, hg]
+  cases vals with
+  | nil => rfl
+  | cons v vs =>
+    cases hl : p.leaves with
+    | nil => rfl
+    | cons l ls =>
+      have : l.key ≠ key := hne l (by simp [hl])
+      simp [this]
+
+/-- the prover's answer for a key below every stored key, when the range ends at the first leaf -/
+theorem queryProof_below (fx : Fixes) (t : Tree) (hw : WF t) (key : Bytes)
+    (hb : ∀ e ∈ t.leaves, key < e.1) (hk : key < nextKey fx key)
+    (hstop : nextKey fx key ≤ nextKey fx t.first.1) :
+    queryProof H enc fx (some t) key = some (none, some ⟨(pathToLeaf H enc t key).1, [], [pleafOf H t.first]⟩) := by
+  obtain ⟨_, hleaf⟩ := pathToLeaf_below H enc t hw key hb
+  have hnk : ¬ nextKey fx key ≤ key := Bytes.not_le.mpr hk
+  have hne : t.first.1 ≠ key := fun e => Bytes.lt_irrefl key (by have := hb _ (first_mem t); rwa [e] at this)
+  have hg := getRangeProof_eq H enc fx t key (nextKey fx key) 2
+  rw [if_neg hnk, hleaf, if_pos (Or.inr hstop)] at hg
+  exact getWithProof_absent H enc fx t key _ _ hg (by simpa [pleafOf] using hne)
+
+/-- **Absence completeness, key below the first leaf** (one-leaf proof). -/
+theorem absence_complete_below' (fx : Fixes) (hne : HNonEmpty H) (t : Tree) (hw : WF t) (key : Bytes)
+    (hb : ∀ e ∈ t.leaves, key < e.1) (hk : key < nextKey fx key)
+    (hstop : nextKey fx key ≤ nextKey fx t.first.1) :
+    ∃ p, queryProof H enc fx (some t) key = some (none, some p) ∧
+      absenceOpRun H enc fx (some p) key [] = .ok [Tree.hash H enc t] := by
+  refine ⟨_, queryProof_below H enc fx t hw key hb hk hstop, ?_⟩
+  obtain ⟨hlm, hleaf⟩ := pathToLeaf_below H enc t hw key hb
+  have hroot := pathToLeaf_hash H enc hne t key
+  rw [hleaf] at hroot
+  simp only [absenceOpRun]
+  rw [computeRootHash_single H enc fx _ _ (fun _ => pathToLeaf_valid H enc hne t hw key)]
+  have : key < (pleafOf H t.first).key := hb _ (first_mem t)
+  simp [verifyAbsence, this, hlm, hroot]
+
+/-- the prover's answer for a key above every stored key -/
+theorem queryProof_above (fx : Fixes) (t : Tree) (hw : WF t) (key : Bytes)
+    (ha : ∀ e ∈ t.leaves, e.1 < key) (hk : key < nextKey fx key) (hl : t.last.1 < nextKey fx t.last.1) :
+    queryProof H enc fx (some t) key = some (none, some ⟨(pathToLeaf H enc t key).1, [], [pleafOf H t.last]⟩) := by
+  obtain ⟨_, hleaf⟩ := pathToLeaf_above H enc t hw key ha
+  have hnk : ¬ nextKey fx key ≤ key := Bytes.not_le.mpr hk
+  have hne : t.last.1 ≠ key := fun e => Bytes.lt_irrefl key (by have := ha _ (last_mem t); rwa [e] at this)
+  by_cases hs : (2 = 1 ∨ nextKey fx key ≤ nextKey fx t.last.1)
+  · have hg := getRangeProof_eq H enc fx t key (nextKey fx key) 2
+    rw [if_neg hnk, hleaf, if_pos hs] at hg
+    exact getWithProof_absent H enc fx t key _ _ hg (by simpa [pleafOf] using hne)
+  · have htr := traverse_none H enc fx (pathToLeaf H enc t key).1 (nextKey fx t.last.1) (nextKey fx key) 2 t
+      (fun e he => Bytes.lt_of_le_of_lt (le_last t hw e he) hl)
+      ⟨some 0, [], [], [pleafOf H t.last], 1,
+        if key ≤ t.last.1 ∧ t.last.1 < nextKey fx key then [t.last.2.1] else []⟩
+    obtain ⟨_, a1, a2, a3⟩ := htr
+    have hg := getRangeProof_eq H enc fx t key (nextKey fx key) 2
+    rw [if_neg hnk, hleaf, if_neg hs, a1, a2, a3] at hg
+    exact getWithProof_absent H enc fx t key _ _ hg (by simpa [pleafOf] using hne)
+
+/-- **Absence completeness, key above the last leaf** (one-leaf proof). -/
+theorem absence_complete_above' (fx : Fixes) (hne : HNonEmpty H) (t : Tree) (hw : WF t) (key : Bytes)
+    (ha : ∀ e ∈ t.leaves, e.1 < key) (hk : key < nextKey fx key) (hl : t.last.1 < nextKey fx t.last.1) :
+    ∃ p, queryProof H enc fx (some t) key = some (none, some p) ∧
+      absenceOpRun H enc fx (some p) key [] = .ok [Tree.hash H enc t] := by
+  refine ⟨_, queryProof_above H enc fx t hw key ha hk hl, ?_⟩
+  obtain ⟨hrm, hleaf⟩ := pathToLeaf_above H enc t hw key ha
+  have hroot := pathToLeaf_hash H enc hne t key
+  rw [hleaf] at hroot
+  simp only [absenceOpRun]
+  rw [computeRootHash_single H enc fx _ _ (fun _ => pathToLeaf_valid H enc hne t hw key)]
+  have hlt : t.last.1 < key := ha _ (last_mem t)
+  have h1 : ¬ key < (pleafOf H t.last).key := Bytes.lt_asymm hlt
+  have h2 : key ≠ (pleafOf H t.last).key := fun e => Bytes.lt_irrefl key (by rw [e] at hlt ⊢; exact hlt)
+  simp [verifyAbsence, h1, h2, hrm, hroot]
+
+/-- `key ‖ 0x00` is the immediate successor: anything above `a` is at least `a ‖ 0x00` -/
+theorem succ_le_of_lt : ∀ (a b : Bytes), a < b → a ++ [0] ≤ b
+  | [], [], h => absurd h (List.lt_irrefl _)
+  | [], y :: ys, _ => by
+    show ¬ (y :: ys) < [0]
+    intro h
+    rcases List.cons_lt_cons_iff.mp h with h | ⟨_, h⟩
+    · exact absurd h (by simp [UInt8.lt_iff_toNat_lt])
+    · exact List.not_lt_nil _ h
+  | x :: xs, [], h => absurd h (List.not_lt_nil _)
+  | x :: xs, y :: ys, h => by
+    rcases List.cons_lt_cons_iff.mp h with h1 | ⟨e, h2⟩
+    · exact List.le_of_lt (List.cons_lt_cons_iff.mpr (Or.inl h1))
+    · subst e
+      have := succ_le_of_lt xs ys h2
+      show ¬ (x :: ys) < (x :: (xs ++ [0]))
+      intro hc
+      rcases List.cons_lt_cons_iff.mp hc with hc | ⟨_, hc⟩
+      · exact absurd hc (by simp)
+      · exact this hc
+
+theorem lt_succ (a : Bytes) : a < a ++ [0] := by
+  induction a with
+  | nil => exact List.nil_lt_cons _ _
+  | cons x xs ih => exact List.cons_lt_cons_iff.mpr (Or.inr ⟨rfl, ih⟩)
 end
 end IavlProof
